@@ -203,6 +203,14 @@ func main() {
 				scs[len(scs)-1].UptimeMin = 6
 				add("gated", engine, bal, []string{"ok"}, 16, true)
 				scs[len(scs)-1].UptimeMin = 61
+				// an endpoint that served traffic, then nothing for more / less than the collector's TTL, is in use
+				// again when the clean-up pass runs
+				for _, idle := range []int{61, 59, 240} {
+					add("gated", engine, bal, []string{"ok", "ok"}, 12, true)
+					scs[len(scs)-1].IdleMin, scs[len(scs)-1].UptimeMin = idle, 6
+					add("gated", engine, bal, []string{"ok"}, 5, true)
+					scs[len(scs)-1].IdleMin, scs[len(scs)-1].UptimeMin = idle, 6
+				}
 			}
 			// client abort: the backend stalls mid-body, the client goes away
 			for _, bal := range bals {
